@@ -32,6 +32,11 @@ func init() {
 			Fields: []string{"items"}, Calls: []string{"withLock", "addLast", "Handler"}},
 		skelTarget{Name: "TaskQueue.GetFirst", File: "pkg/task/queue/task_queue.go", Recv: "TaskQueue", Func: "GetFirst",
 			Fields: []string{"items"}, Calls: []string{"isEmpty", "Handler"}},
+		// Iterate (live metrics, debug endpoints) holds the read lock once: no GetMain/GetByName under it
+		skelTarget{Name: "TaskQueueSet.Iterate", File: "pkg/task/queue/queue_set.go", Recv: "TaskQueueSet", Func: "Iterate",
+			Fields: []string{"Queues", "MainName"}, Calls: []string{"GetMain", "GetByName", "doFn", "DoWithLock"}},
+		skelTarget{Name: "TaskQueueSet.GetMain", File: "pkg/task/queue/queue_set.go", Recv: "TaskQueueSet", Func: "GetMain",
+			Fields: []string{"Queues", "MainName"}, Calls: []string{"GetByName"}},
 		// where the queues are created and started: one goroutine, sequential Start() calls, absent names only
 		skelTarget{Name: "ShellOperator.initAndStartHookQueues", File: "pkg/shell-operator/operator.go", Recv: "ShellOperator", Func: "initAndStartHookQueues",
 			Fields: []string{}, Calls: []string{"GetByName", "NewNamedQueue", "Start"}},
